@@ -391,7 +391,9 @@ def gen_config(rng, fault_class=None):
         order_ops = rng.sample(ORDER_OPS, k=rng.choice([2, 3, 4]))
     if flavour == "groups":
         # one variable, one of ==/!=: multi-valued ==/!= groups build up, get widened, narrowed and compared
-        string_vars = string_vars[:1]
+        # (a second variable at a lower rate keeps compound markers around the groups)
+        others = [v for v in sorted(STRING_VARS) if v != string_vars[0]]
+        string_vars = [string_vars[0]] * 3 + ([rng.choice(others)] if rng.random() < 0.6 else [])
         string_ops = [rng.choice(["==", "!="])] if rng.random() < 0.7 else ["==", "!="]
     faults_on = (rng.random() < 0.5) if fault_class is None else bool(fault_class)
     fault_kinds = [k for k in FAULT_KINDS if rng.random() < 0.7] or [rng.choice(FAULT_KINDS)]
@@ -416,6 +418,7 @@ def gen_config(rng, fault_class=None):
         "p_reparse": rng.choice([0.05, 0.12, 0.12, 0.3]),
         "roundtrip": rng.random() < 0.25,
         "p_echo": rng.choice([0.0, 0.15, 0.35, 0.6]),
+        "p_borrow": rng.choice([0.0, 0.0, 0.15, 0.4]),
         "order_ops": order_ops,
         "p_flip": rng.choice([0.0, 0.15, 0.3, 0.5]),
         "p_long_pv": rng.choice([0.1, 0.1, 0.5]),
@@ -739,6 +742,7 @@ def schedule_program(rng, base, variant=False, fault_class=None):
             cfg["fault_rate"] /= 3
         cfg["shims"] = rng.random() < 0.5
         cfg["p_echo"] = rng.choice([0.0, 0.15, 0.35, 0.6])
+        cfg["p_borrow"] = rng.choice([0.0, 0.0, 0.15, 0.4])
     # schedule: which client issues its next op
     cursors = [0] * len(scripts)
     order = []
@@ -786,6 +790,57 @@ def schedule_program(rng, base, variant=False, fault_class=None):
         elif kind in ("reparse", "drop"):
             st["a"] = local2global[c][op[1]]
         steps.append(st)
+    if cfg.get("p_borrow") and len(scripts) > 1:
+        # components hand marker OBJECTS to each other: an &/| takes its second operand from another
+        # client's results - half of the time the differently spelled TWIN (same position in the twin
+        # client's script) of something in the first operand's own ancestry
+        n_vict = sum(1 for r in roles if r == "victim")
+        root = [c if roles[c] == "victim" else (c - n_vict) % n_vict for c in range(len(scripts))]
+        g2l = {}
+        for c, m in enumerate(local2global):
+            for li, gid in m.items():
+                g2l[gid] = (c, li)
+        by_gid = {st["id"]: st for st in steps}
+
+        def local_cone(gid):
+            seen, stack = set(), [gid]
+            while stack:
+                k = stack.pop()
+                if k in seen:
+                    continue
+                seen.add(k)
+                stx = by_gid[k]
+                for key in ("a", "b"):
+                    if key in stx and stx["op"] in ("and", "or", "reparse"):
+                        stack.append(stx[key])
+            return sorted(seen)
+
+        produced = []  # (id, client) of producing steps so far
+        gone = set()
+        for st in steps:
+            if st["op"] == "drop":
+                gone.add(st["a"])
+            if st["op"] in ("and", "or") and rng.random() < cfg["p_borrow"]:
+                c = st["c"]
+                twins = [d for d in range(len(scripts)) if d != c and root[d] == root[c]]
+                cands = []
+                if twins and rng.random() < 0.5:
+                    for k in local_cone(st["a"]):
+                        kc, kli = g2l.get(k, (None, None))
+                        if kc != c:
+                            continue
+                        for d in twins:
+                            t = local2global[d].get(kli)
+                            if t is not None and t < st["id"] and t not in gone and by_gid[t]["op"] in ("parse", "and", "or", "reparse"):
+                                cands.append(t)
+                if not cands:
+                    foreign = [i for i, pc in produced if pc != c and i not in gone]
+                    cands = foreign[-6:] if (foreign and rng.random() < 0.6) else foreign
+                if cands:
+                    st["b"] = rng.choice(cands)
+                    st["borrowed"] = True
+            if st["op"] in ("parse", "and", "or", "reparse"):
+                produced.append((st["id"], st["c"]))
     if cfg["p_echo"] and len(scripts) > 1:
         steps = _insert_echoes(rng, cfg, steps, len(scripts))
     if cfg["faults"]:
